@@ -24,7 +24,9 @@ var generators = map[string]func(*Gen){
 	"C13": genC13,
 	"C14": genC14,
 	"C15": genC15,
+	"C16": genC16,
 	"C17": genC17,
+	"C18": genC18,
 	"C19": genC19,
 }
 
